@@ -11,6 +11,7 @@ package c18
 import (
 	"encoding/json"
 	"fmt"
+	"net"
 	"net/http"
 	"net/http/httptest"
 	"strings"
@@ -56,20 +57,23 @@ type WSStep struct {
 }
 
 type WSCase struct {
-	M     int      `json:"max_failures"`
-	Rate  int      `json:"rate"`
-	Burst int      `json:"burst"`
-	Steps []WSStep `json:"steps"`
+	Transport string   `json:"transport,omitempty"` // "" = websocket upgrade headers, "addr" = socket address forms (zones)
+	M         int      `json:"max_failures"`
+	Rate      int      `json:"rate"`
+	Burst     int      `json:"burst"`
+	Steps     []WSStep `json:"steps"`
 }
 
-func genWS(t *rapid.T) WSCase {
-	c := WSCase{M: rapid.IntRange(1, 3).Draw(t, "m"), Rate: 1, Burst: rapid.IntRange(1, 4).Draw(t, "burst")}
+func genWS(t *rapid.T) WSCase { return genGate(t, "", len(wsHeaders)) }
+
+func genGate(t *rapid.T, transport string, nforms int) WSCase {
+	c := WSCase{Transport: transport, M: rapid.IntRange(1, 3).Draw(t, "m"), Rate: 1, Burst: rapid.IntRange(1, 4).Draw(t, "burst")}
 	n := rapid.IntRange(4, 12).Draw(t, "nsteps")
 	ops := []string{"unknown", "unknown", "unknown", "wrong", "login", "login", "login", "anon", "anon", "anon", "bl-add", "bl-add", "bl-rm", "wl-add", "wl-rm", "unban", "ban-claimed"}
 	for i := 0; i < n; i++ {
 		s := WSStep{Op: rapid.SampledFrom(ops).Draw(t, "op")}
 		if rapid.IntRange(0, 9).Draw(t, "plain") >= 4 {
-			s.Hdr = rapid.IntRange(1, len(wsHeaders)-1).Draw(t, "hdr")
+			s.Hdr = rapid.IntRange(1, nforms-1).Draw(t, "hdr")
 		}
 		switch s.Op {
 		case "unknown", "wrong":
@@ -81,7 +85,7 @@ func genWS(t *rapid.T) WSCase {
 		}
 		c.Steps = append(c.Steps, s)
 	}
-	c.Steps = append(c.Steps, WSStep{Op: rapid.SampledFrom([]string{"login", "anon"}).Draw(t, "tailOp"), Hdr: rapid.IntRange(0, len(wsHeaders)-1).Draw(t, "tailHdr"), N: 1})
+	c.Steps = append(c.Steps, WSStep{Op: rapid.SampledFrom([]string{"login", "anon"}).Draw(t, "tailOp"), Hdr: rapid.IntRange(0, nforms-1).Draw(t, "tailHdr"), N: 1})
 	return c
 }
 
@@ -117,11 +121,23 @@ func (s *wsStream) Write(p []byte) (int, error) {
 type wsClient struct {
 	conn *gws.Conn
 	sp   *stream.StreamProcessor
+	mini *miniserver.Client // "addr" transport: in-memory connection whose RemoteAddr is a real *net.TCPAddr / *net.UDPAddr
 }
 
-func (c *wsClient) close() { c.sp.Close(); c.conn.Close() }
+func (c *wsClient) close() {
+	if c.mini != nil {
+		c.mini.CloseByPeer()
+		return
+	}
+	c.sp.Close()
+	c.conn.Close()
+}
 
 func (c *wsClient) handshake(req *packet.HandshakeRequest) (*packet.HandshakeResponse, error) {
+	if c.mini != nil {
+		resp, _, rerr := c.mini.Handshake(req)
+		return resp, rerr
+	}
 	b, _ := json.Marshal(req)
 	c.conn.SetReadDeadline(time.Now().Add(20 * time.Second))
 	if _, err := c.sp.WritePacket(&packet.TransferPacket{PacketType: packet.Handshake, Payload: b}, false, 0); err != nil {
@@ -163,17 +179,31 @@ func runWS(t vkit.TB, c WSCase) {
 	setup.CloseByPeer()
 	id, secret := setup.ClientID, setup.Secret
 
-	module := wsmodule.NewWebSocketModule(srv.Ctx, &httpservice.WebSocketModuleConfig{Enabled: true})
-	module.SetSession(srv.SM)
-	router := mux.NewRouter()
-	module.RegisterRoutes(router)
-	hs := httptest.NewServer(router)
-	defer hs.Close()
-	url := "ws" + strings.TrimPrefix(hs.URL, "http") + "/_tunnox"
+	// transport-specific parts
+	wsPeer, wsClaimed, pfx := wsPeer, wsClaimed, "ws"
+	listKeys := append([]string{wsPeer}, wsClaimed...)
+	formDesc := func(i int) string { return fmt.Sprintf("upgrade headers %v", wsHeaders[i]) }
+	plainSuffix, formSuffix := "/via-websocket", "/via-websocket-upgrade-with-forwarding-headers"
+	url := ""
+	if c.Transport == "addr" {
+		wsPeer, wsClaimed, pfx = addrPeer, addrBanClaimed, "addr"
+		listKeys = addrListKeys
+		formDesc = func(i int) string { return fmt.Sprintf("RemoteAddr %T %q", addrForms[i](1), addrForms[i](1).String()) }
+		plainSuffix, formSuffix = "/via-handshake/plain-tcp-socket-address", "/via-handshake/socket-address-with-zone-or-udp"
+	} else {
+		module := wsmodule.NewWebSocketModule(srv.Ctx, &httpservice.WebSocketModuleConfig{Enabled: true})
+		module.SetSession(srv.SM)
+		router := mux.NewRouter()
+		module.RegisterRoutes(router)
+		hs := httptest.NewServer(router)
+		defer hs.Close()
+		url = "ws" + strings.TrimPrefix(hs.URL, "http") + "/_tunnox"
+	}
+	port := 0
 
 	bf := newIPModel(bfCfg{M: c.M, P: 1000, W: hour, Ban: hour}, nil)
 	lists := newIPMModel()
-	keys := append([]string{wsPeer}, wsClaimed...)
+	keys := listKeys
 	start := time.Now()
 	now := func() time.Duration { return time.Since(start) }
 	var trace []string
@@ -182,9 +212,19 @@ func runWS(t vkit.TB, c WSCase) {
 	undetermined := ""
 	inconclusive := func(why string) {
 		vkit.Skipped(1)
-		vkit.Class("ws:inconclusive:" + why)
+		vkit.Class(pfx + ":inconclusive:" + why)
 	}
-	dial := func(h http.Header) *wsClient {
+	dial := func(form int) *wsClient {
+		if c.Transport == "addr" {
+			port++
+			a := addrForms[form](40000 + port)
+			cl, err := srv.ConnectFrom(a.String(), a)
+			if err != nil {
+				return nil
+			}
+			return &wsClient{mini: cl}
+		}
+		h := wsHeaders[form]
 		d := gws.Dialer{HandshakeTimeout: 20 * time.Second}
 		conn, _, err := d.Dial(url, h)
 		if err != nil {
@@ -207,19 +247,19 @@ func runWS(t vkit.TB, c WSCase) {
 		kind := outcome(resp, nil)
 		wantAllowed, blKey, blWhy := lists.allowed(wsPeer, iv, covers)
 		wantBan := bf.query(iv)
-		trace = append(trace, fmt.Sprintf("%d:%s headers=%v -> %s (model for %s: listed-allowed=%v banned=%v)", si, what, wsHeaders[s.Hdr], kind, wsPeer, wantAllowed, wantBan))
+		trace = append(trace, fmt.Sprintf("%d:%s %s -> %s (model for %s: listed-allowed=%v banned=%v)", si, what, formDesc(s.Hdr), kind, wsPeer, wantAllowed, wantBan))
 		if undetermined != "" {
 			vkit.Skipped(1)
 			return kind, resp
 		}
-		suffix := "/via-websocket"
+		suffix := plainSuffix
 		if s.Hdr != 0 {
-			suffix = "/via-websocket-upgrade-with-forwarding-headers"
+			suffix = formSuffix
 		}
 		refused := kind != "success" && kind != "challenge"
 		fail := func(key, why string) {
-			detail := fmt.Sprintf("step %d %s from socket address %s with upgrade headers %v answered %q: %s | MaxFailures=%d burst=%d | trace: %s",
-				si, what, wsPeer, wsHeaders[s.Hdr], kind, why, c.M, c.Burst, strings.Join(trace, " ; "))
+			detail := fmt.Sprintf("step %d %s from socket address %s with %s answered %q: %s | MaxFailures=%d burst=%d | trace: %s",
+				si, what, wsPeer, formDesc(s.Hdr), kind, why, c.M, c.Burst, strings.Join(trace, " ; "))
 			vkit.Violation(t, key+suffix, detail, Replay{Kind: "websocket", WS: &c})
 			vkit.Case("known:"+key+suffix, false, "")
 			failed = true
@@ -319,7 +359,7 @@ func runWS(t vkit.TB, c WSCase) {
 			trace = append(trace, fmt.Sprintf("%d:ban %s (claimed address only)", si, claimed))
 		default:
 			for k := 0; k < n && !failed; k++ {
-				cl := dial(wsHeaders[s.Hdr])
+				cl := dial(s.Hdr)
 				if cl == nil {
 					inconclusive("dial-failed")
 					return
@@ -362,35 +402,62 @@ func runWS(t vkit.TB, c WSCase) {
 	}
 	{
 		if bad, detail := rateBound(anon, c.Rate, c.Burst); bad {
-			key := "C18/rate/anonymous-registrations-exceed-rate-and-burst/via-websocket-upgrade-with-forwarding-headers"
-			vkit.Violation(t, key, "socket address "+wsPeer+" (all header combinations pooled): "+detail+" | trace: "+strings.Join(trace, " ; "), Replay{Kind: "websocket", WS: &c})
+			key := "C18/rate/anonymous-registrations-exceed-rate-and-burst" + formSuffix
+			vkit.Violation(t, key, "socket address "+wsPeer+" (all header combinations / address forms pooled): "+detail+" | trace: "+strings.Join(trace, " ; "), Replay{Kind: "websocket", WS: &c})
 			vkit.Case("known:"+key, false, "")
 			return
 		}
 	}
 	hdrRefused := feats["refused:banned-despite-forwarding-headers"] + feats["refused:blacklisted-despite-forwarding-headers"]
-	class := "ws:no-refusal"
+	class := pfx + ":no-refusal"
 	switch {
 	case hdrRefused > 0:
-		class = "ws:locked-out-peer-refused-despite-forwarding-headers"
+		class = pfx + ":locked-out-peer-refused-despite-forwarding-headers-or-address-form"
 	case feats["refused:banned"]+feats["refused:blacklisted"] > 0:
-		class = "ws:refusal"
+		class = pfx + ":refusal"
 	}
 	var sb strings.Builder
-	fmt.Fprintf(&sb, "%d/%d|", c.M, c.Burst)
+	fmt.Fprintf(&sb, "%s/%d/%d|", c.Transport, c.M, c.Burst)
 	for _, s := range c.Steps {
 		fmt.Fprintf(&sb, "%s.%d.%d*%d;", s.Op, s.Hdr, s.Key, s.N)
 	}
 	vkit.Case(class, hdrRefused > 0 || feats["admitted-with-headers-while-other-addresses-are-listed-or-banned"] > 0, sb.String())
 	for k, v := range feats {
 		for i := 0; i < v; i++ {
-			vkit.Class("ws:" + k)
+			vkit.Class(pfx + ":" + k)
 		}
 	}
 	if undetermined != "" {
-		vkit.Class("ws:undetermined")
+		vkit.Class(pfx + ":undetermined")
 	}
 	vkit.Sample(class, c)
+}
+
+// ---------------------------------------------------------------------------
+// part 7: socket address forms. The same oracle over in-memory connections whose RemoteAddr() is a real
+// *net.TCPAddr / *net.UDPAddr of ONE link-local IPv6 host, with and without a zone: the zone names the local
+// interface, not the peer, so every gate and every counter is keyed by the IP ("fe80::1234") - failures seen
+// through eth0 and eth1 add up, an exact or CIDR blacklist entry and a manual ban of the IP apply to every form,
+// and a ban of the zone-qualified string applies to nobody.
+
+const addrPeer = "fe80::1234"
+
+var addrListKeys = []string{addrPeer, "fe80::/64", "fe81::1"}
+var addrBanClaimed = []string{"fe80::1234%eth0", "fe81::1"}
+
+var addrForms = []func(port int) net.Addr{
+	func(p int) net.Addr { return &net.TCPAddr{IP: net.ParseIP(addrPeer), Port: p} },
+	func(p int) net.Addr { return &net.TCPAddr{IP: net.ParseIP(addrPeer), Port: p, Zone: "eth0"} },
+	func(p int) net.Addr { return &net.TCPAddr{IP: net.ParseIP(addrPeer), Port: p, Zone: "eth1"} },
+	func(p int) net.Addr { return &net.UDPAddr{IP: net.ParseIP(addrPeer), Port: p, Zone: "eth0"} },
+	func(p int) net.Addr { return &net.UDPAddr{IP: net.ParseIP(addrPeer), Port: p, Zone: "2"} },
+	func(p int) net.Addr { return &net.UDPAddr{IP: net.ParseIP(addrPeer), Port: p} },
+}
+
+func TestAddressForms(t *testing.T) {
+	vkit.Check(t, 160, 3200, func(t *rapid.T) {
+		runWS(t, genGate(t, "addr", len(addrForms)))
+	})
 }
 
 func TestWebSocketGate(t *testing.T) {
